@@ -30,7 +30,7 @@ LEVEL_NOTE = "Trusted: SHA-256 over raw array bytes; subprocess isolation.  Sche
 def budget(tier):
     if tier == "quick":
         return dict(max_examples=16, workers=4, time_s=170, min_cases=6)
-    return dict(max_examples=160, workers=5, time_s=1200, min_cases=60)
+    return dict(max_examples=160, workers=5, time_s=1200, min_cases=12)
 
 
 @st.composite
